@@ -24,7 +24,7 @@ CFG = {
     "prop_file": "Properties/C02.v",
     "run_modules": ["Verif.C02.Run"],
     "coq_dirs": ["C02"],
-    "n": {"quick": 1200, "thorough": 240000},
+    "n": {"quick": 1200, "thorough": 30000},
     "shard": 80,
     "shrink": False,
     "max_report": 6,
